@@ -150,6 +150,70 @@ func main() {
 			return true
 		})
 	}
+	if found && o.ValidKeys == nil {
+		// the table may live at package level: follow the identifiers validType indexes
+		var names []string
+		for _, d := range pf.Decls {
+			if fd, ok := d.(*ast.FuncDecl); ok && fd.Name.Name == "validType" && fd.Recv == nil {
+				ast.Inspect(fd.Body, func(n ast.Node) bool {
+					if ix, ok := n.(*ast.IndexExpr); ok {
+						if id, ok := ix.X.(*ast.Ident); ok {
+							names = append(names, id.Name)
+						}
+					}
+					return true
+				})
+			}
+		}
+		for _, d := range pf.Decls {
+			gd, ok := d.(*ast.GenDecl)
+			if !ok || gd.Tok != token.VAR {
+				continue
+			}
+			for _, sp := range gd.Specs {
+				vs := sp.(*ast.ValueSpec)
+				for i, n := range vs.Names {
+					use := false
+					for _, nm := range names {
+						use = use || nm == n.Name
+					}
+					if !use || i >= len(vs.Values) || o.ValidKeys != nil {
+						continue
+					}
+					cl, ok := vs.Values[i].(*ast.CompositeLit)
+					if !ok {
+						continue
+					}
+					if _, isMap := cl.Type.(*ast.MapType); !isMap {
+						continue
+					}
+					o.ValidKeys = []string{}
+					for _, e := range cl.Elts {
+						kv, ok := e.(*ast.KeyValueExpr)
+						if !ok {
+							continue
+						}
+						switch k := kv.Key.(type) {
+						case *ast.Ident:
+							v, ok := consts[k.Name]
+							if !ok {
+								fatal("validType table key %s is not a string constant of purl.go", k.Name)
+							}
+							o.ValidKeys = append(o.ValidKeys, v)
+						case *ast.BasicLit:
+							v, err := strconv.Unquote(k.Value)
+							if err != nil {
+								fatal("validType table key %s", k.Value)
+							}
+							o.ValidKeys = append(o.ValidKeys, v)
+						default:
+							fatal("validType table: unsupported key expression at %s", fset.Position(kv.Pos()))
+						}
+					}
+				}
+			}
+		}
+	}
 	if !found || o.ValidKeys == nil {
 		fatal("func validType with a map literal not found in purl/purl.go (translator needs updating)")
 	}
